@@ -30,6 +30,17 @@ CHECKS = {
         note="Python == on values modelled structurally (bool as int, dicts as mappings). Loaded-document collisions are "
              "covered by the load correspondence (C07/C02 suites) since every loaded image goes through the same add.",
         design="DESIGN.md section 6 C09"),
+    "C10": dict(
+        text="Coq invariant theorems: C10_images_reach_arch_ok / C10_rpms_reach_arch_ok (every manifest reachable by ANY sequence of "
+             "add calls has only known binary architecture keys), C10_add_loaded_arch_ok (the images loader re-files every image, "
+             "src ones of a <= 1.1 document included, through add), C10_rpms_03_arch_ok (every manifest converted from format 0.3 "
+             "has no source architecture key - proved through the four nested loops of the reader), "
+             "C10_added_image_is_in_its_cell. Tie: add histories with src/nosrc/unknown arches; down-converted images 1.0/1.1 "
+             "and rpms 0.1-0.3 documents with 'src' cells loaded by the real library and the model, with an implementation-side "
+             "oracle for the re-filing clause.",
+        note="Partial: the positive re-filing clause (each source image/RPM appears under each binary arch) is checked by the "
+             "oracle on the implementation and by the load correspondence, not stated as a Coq theorem over whole documents.",
+        design="DESIGN.md section 6 C10"),
     "C12": dict(
         text="Coq refinement theorems: C12_rpms_add_refines (an accepted Rpms.add is exactly one map update at (variant, arch, "
              "canonical SRPM NEVRA, canonical NEVRA) with the given path/category and lower-cased sigkey; every other entry "
